@@ -83,16 +83,23 @@ Theorem C08_empty_source_done : forall B H, (0 < B)%N -> forall proto stops dst,
 Proof. intros B H HB proto stops dst Hp Hd. exact (run_empty_source_done B H HB [] dst proto stops Hp eq_refl Hd). Qed.
 Print Assumptions C08_empty_source_done.
 
-(* transcription of the receiver on a peer-chosen step (the C12 sink `make([]byte, hash.Step -
-   matchStep)`, not fixed here): a step below matchStep panics, a step beyond the file makes the
-   receiver allocate the peer-chosen amount before io.ReadFull fails *)
-Theorem C08_peer_step_sink : forall H dst step h rest st, r_match st = true ->
+(* the receiver on a peer-chosen step (the former C12 sink `make([]byte, hash.Step - matchStep)`), with
+   the guard now in recvPrefixHash (its presence is read from the source: Consts.resume_step_guard):
+   a step that does not advance (<= matchStep; a repeated step included) or advances by more than
+   one block is refused -- RInvalid: nothing allocated, nothing read, no ack; a step that is in
+   range but beyond the file allocates at most B bytes before io.ReadFull fails *)
+Theorem C08_peer_step_sink : forall B H dst step h rest st, r_match st = true ->
   let d := (step - r_mstep st)%Z in
-  ((d < 0)%Z -> recv_hashes H dst (Hash step h :: rest) st = RPanic st d) /\
-  ((0 <= d)%Z -> (Z.of_nat (length dst) < Z.of_nat (r_off st) + d)%Z ->
-     recv_hashes H dst (Hash step h :: rest) st = RReadErr st d).
+  ((d <= 0 \/ Z.of_N B < d)%Z -> recv_hashes B H dst (Hash step h :: rest) st = RInvalid st step) /\
+  ((0 < d <= Z.of_N B)%Z -> (Z.of_nat (length dst) < Z.of_nat (r_off st) + d)%Z ->
+     recv_hashes B H dst (Hash step h :: rest) st = RReadErr st d).
 Proof. exact recv_peer_step. Qed.
 Print Assumptions C08_peer_step_sink.
+
+(* and no HASH sequence at all drives the receiver into the negative-length make *)
+Theorem C08_receiver_never_panics : forall B H dst msgs st st' n, recv_hashes B H dst msgs st <> RPanic st' n.
+Proof. exact recv_never_panics. Qed.
+Print Assumptions C08_receiver_never_panics.
 
 (* the statements at the block size of the source *)
 Theorem C08_identical_at_source_constant : forall H proto stops src dst o,
